@@ -32,11 +32,12 @@ def F(x):
 INEXACT = [0]  # how many values of the last model_doc were not floating-point numbers (the nearest one was delivered)
 
 
-def fl(x):
-    """Fraction -> nearest float"""
+def fl(x, rounded=False):
+    """Fraction -> nearest float.  ``rounded``: a mean or variance - quotients are compared within a bound anyway and do
+    not say anything about the sums"""
     if isinstance(x, Fraction):
         v = x.numerator / x.denominator
-        if not (math.isinf(v) or Fraction(v) == x):
+        if not rounded and not (math.isinf(v) or Fraction(v) == x):
             INEXACT[0] += 1
         return v
     return x
@@ -155,10 +156,10 @@ def ev(spec, items, suppress):
         return _named({"entries": fl(n), "sum": fl(s)}, spec, suppress)
     if p == "Average":
         n, _, m, _ = _moments(spec, items)
-        return _named({"entries": fl(n), "mean": fl(m)}, spec, suppress)
+        return _named({"entries": fl(n), "mean": fl(m, True)}, spec, suppress)
     if p == "Deviate":
         n, _, m, v = _moments(spec, items)
-        return _named({"entries": fl(n), "mean": fl(m), "variance": fl(v)}, spec, suppress)
+        return _named({"entries": fl(n), "mean": fl(m, True), "variance": fl(v, True)}, spec, suppress)
     if p in ("Minimize", "Maximize"):
         vals = [qval(spec["q"], r) for r, _ in items]
         vals = [v for v in vals if not isnan(v)]
